@@ -776,6 +776,18 @@ def run(ctx):
     def search():
         return False
     res = common.proof_gate(ctx, search)
+    # part b builds on builder-C08's model: audited separately; if Props/C08 itself does not build,
+    # that is C08's failure (reported by ./check C08) and part b is listed as not checked in this run
+    partb = "checked"
+    ok08, _ = common.build_lean(["SamVerif.Props.C08"])
+    if ok08:
+        rb = common.audit("C09b")
+        res["obligations"] += rb["obligations"]; res["discharged"] += rb["discharged"]
+        if rb["failed"]:
+            ctx.violation("proof obligations of Props/C09b.lean no longer check: " + "; ".join(f"{n} ({w})" for n, w in rb["failed"][:4]),
+                          {"broken_theorems": rb["failed"], "log": rb["log"][-3000:]}, no_input=True)
+    else:
+        partb = "not checked in this run: SamVerif.Props.C08 (another property's module) does not build"
     if not os.path.exists(common.harness_bin(PROP)) or not os.path.exists(common.driver_bin(PROP)):
         return ctx.finish(res, trusted=common.TRUSTED_COMMON)
     extra = {}
@@ -800,6 +812,7 @@ def run(ctx):
         "rule": "distinct (4-token context of the comment gap, comment kind) pairs among the module cases; each case = one comment inserted into one token gap of a valid module, formatted twice by the real parser+printer",
         "samples": samples,
         "traces_validated_against_impl": n1 + n2 + n3 + extra.get("real_documents_laid_out_by_model", 0),
+        "part_b_fragment_corollaries": partb,
         "pending": ["roundtrip_with_comments for comments attached to operator nodes (text-level statement is false: open finding C09-F5); per-production attachment model of the parser"],
         "partial_theorems": {"format_idempotent_fragment_partial": "C08's decidable side condition RT e (operands left unparenthesised only where the parser reads them back as operands); token level; comments only on atoms",
                              "lineComment/multilineComment_content_equal": "content read modulo the repeated leaders `// ` and ` * ` (commentKey)"},
